@@ -173,13 +173,48 @@ func membersOf(locale string) []rune {
 	return out
 }
 
+// pristineFallbacks is the package-level default table as the library
+// ships it (taken before any screen exists).  Registrations are made on a
+// screen and are that screen's: the table itself must never change.
+var pristineFallbacks = func() map[rune]string {
+	m := map[rune]string{}
+	for k, v := range tcell.RuneFallbacks {
+		m[k] = v
+	}
+	return m
+}()
+
+func fallbackTableDiff() string {
+	for k, v := range pristineFallbacks {
+		if got, ok := tcell.RuneFallbacks[k]; !ok {
+			return fmt.Sprintf("the default for %q (U+%04X) was removed", k, k)
+		} else if got != v {
+			return fmt.Sprintf("the default for %q (U+%04X) changed from %q to %q", k, k, v, got)
+		}
+	}
+	for k, v := range tcell.RuneFallbacks {
+		if _, ok := pristineFallbacks[k]; !ok {
+			return fmt.Sprintf("%q (U+%04X) -> %q was added", k, k, v)
+		}
+	}
+	return ""
+}
+
 func runC17(t *rapid.T) {
 	if hx.PastDeadline() {
 		return
 	}
+	// every run starts from the shipped table, whatever an earlier run did to it
+	for k := range tcell.RuneFallbacks {
+		delete(tcell.RuneFallbacks, k)
+	}
+	for k, v := range pristineFallbacks {
+		tcell.RuneFallbacks[k] = v
+	}
 	fam := ecmaFamily()
 	cfg := hx.DrawConfig(t, fam, 10, 4)
 	cfg.Locale = rapid.SampledFrom(legacyLocales()).Draw(t, "locale")
+	cfg.LocaleVia = rapid.IntRange(0, 4).Draw(t, "localevia")
 	members := membersOf(cfg.Locale)
 	ch := hx.DrawChooser(t, 40)
 	hx.Arm("C17")
@@ -193,7 +228,7 @@ func runC17(t *rapid.T) {
 	if w.charset != nil {
 		w.T = vtFor(w)
 	}
-	for k, v := range tcell.RuneFallbacks {
+	for k, v := range pristineFallbacks {
 		w.fallbacks[k] = v
 	}
 	type lop struct {
@@ -296,6 +331,9 @@ func runC17(t *rapid.T) {
 	}
 	for _, pn := range w.Panics() {
 		w.fail("C17/panic", "panic: %s", pn)
+	}
+	if d := fallbackTableDiff(); d != "" {
+		w.fail("C17/fallback-table", "a registration made on one screen changed the package-level RuneFallbacks table, which every other screen starts from: %s", d)
 	}
 	hx.St.Record(s, map[string]int{"fallback_change": 1}, func() interface{} {
 		return map[string]interface{}{"config": cfg.String(), "ops": len(ops), "bytes_written": w.Tty.WriteOut}
